@@ -302,7 +302,9 @@ def run(ctx, n=None, module_gate_only=False):
             ok = [m for m, f in imported]
             # modules whose import failed (not on sys.path, ...) were attempted too: the runner lists them
             attempted = set(ok) | set(failed_imports)
-            if set(mimp_once) != attempted or [m for m in mimp_once if m in ok] != ok:
+            # a failed import of `a.b` may import the module `a` on the way (Python's own doing): the order of the
+            # recorded imports is compared only when nothing failed
+            if set(mimp_once) != attempted or (not failed_imports and [m for m in mimp_once if m in ok] != ok):
                 ctx.drift("discovery.imports", "model imports %r, real imported %r + failed %r" % (
                     mimp_once, ok, failed_imports), case)
 
